@@ -20,6 +20,7 @@ RULE = (
     "LSDA and others); 1-3 symbols deleted at once with random force flags, some requested twice with different "
     "flags. Per case: the module after apply() against the Lean model, a direct scan for any mention of a deleted "
     "symbol, untouched symbols/entries, and a protobuf round trip"
+    "; version entries with the hidden flag"
 )
 ASSUMPTIONS = [
     "when the call fails the reported symbol may be any unforced symbol that is still used (iteration order of intervals and expressions is unspecified): the model and the code must agree on failing and the reported symbol must be such a symbol",
